@@ -17,7 +17,7 @@ LEVEL_NOTE = ("Trusted: Lean kernel (+ standard axioms); hand models (tied by co
               "empty_like are correspondence-only; windows that start outside their row are outside the property.")
 TECHNIQUE = "Lean 4 proof of structural functions = list-of-rows spec; model/implementation correspondence"
 DESIGN_REF = "6.8"
-LEAN_MODULES = ["NpsVerif.Props.C08"]
+LEAN_MODULES = ["NpsVerif.Props.C08A", "NpsVerif.Props.C08B"]
 KERNELS = ()
 RULE = ("cases = function (concatenate axis 0 / -1, zeros/ones/empty_like, nonzero, where, subset, mask indexing, ragged_slice on "
         "ragged / 1-D / 2-D input, as_padded_matrix left/right) x operand shapes (exhaustive <=3x3 + random) x masks / windows x dtype; "
